@@ -79,6 +79,14 @@ def run(ctx: Ctx) -> Result:
             pure.append((cache, allowed, list(a), list(b), len(cases) - 1))
         if it % 5 == 0:
             cases.append(('CHECK_MULTISIG_VERIFY', cache, build(sigs, pks, allowed, verify=True), expect, not flagbad))
+        if m >= 1 and it % 4 == 0:
+            # fewer items on the stack than the quorum operand asks for (m stays in the instruction): never true, whatever the
+            # supplied signatures are - also when they are all valid and distinct
+            k = rng.randrange(0, m)
+            good = [keys.sks[idx[j % n]].sign(ref_msg(cache, 0)).signature for j in range(k)] if n else []
+            cases.append(('CHECK_MULTISIG (stack holds fewer than m signature items)', cache, build(good, pks, allowed, m=m), False, False))
+            junk = [b'j'] * rng.randrange(0, 2)      # something else below: it must not be counted as a signature slot either
+            cases.append(('CHECK_MULTISIG (fewer than m signatures above an unrelated item)', cache, b''.join(P(x) for x in junk) + build(good, pks, allowed, m=m), False, False))
     outs = []
     def work():
         for what, cache, script, expect, well in cases:
